@@ -6,7 +6,8 @@ import BufProofs.Lemmas.AnnotLemmas
   printers are kept for the `…_counterexample` theorems).
 
   Sections: exit status over Go error values (trichotomy under `StepsOK`, the error → status
-  mapping, three necessity counterexamples) · `buf format` modes · de-duplication and order ·
+  mapping, three necessity counterexamples) · `buf format` modes · `-w` and the output sinks
+  (stdout, `-o file`, `-o dir`) at the level of file contents · de-duplication and order ·
   the formats (record structure, `formats_decode` = parse ∘ print, cross-format agreement
   `formats_carry_same_fields` on the fields two formats share).
 -/
@@ -429,6 +430,136 @@ example : formatWrite wEx =
     ([("a.proto".toList, "message A {}\n".toList), ("b.proto".toList, "message B {}\n".toList),
       ("c.proto".toList, "message  C{}".toList), ("d.proto".toList, "message D {}\n".toList)], false, true) := by decide
 example : (formatWrite (nextRun (fun t => some t) wEx)).2 = (false, false) := by decide
+
+/-! ## `buf format` to stdout, `-o file.proto`, `-o dir`: what the sink holds afterwards
+
+The verdict of `--exit-code` says "the formatter's output differs from the input"; what the user
+gets in the modes without `-w` is the sink.  As coded (`writeToProtoFile`: `PutProtoFile`
+truncating, one walk in path order, a complete read and a complete write per file;
+`writeToDir`: `storage.Copy`) the sink holds every targeted file's formatter output completely,
+whatever its length; the formatter is a parameter (C07). -/
+
+/-- stdout / `-o file.proto` when every targeted file parses: the run does not fail and the sink
+    holds exactly the concatenation, in path order, of the formatter's outputs of the targeted
+    files, whatever the location held before (truncate on open) — every targeted file's COMPLETE
+    output `t` is in it, after the outputs of the targeted files before it and followed by those
+    of the files after it; the length is the sum of the lengths. -/
+theorem sink_holds_every_output_in_path_order (old : Str) (fs : List WFile) (hp : fmtStepOk fs = true) :
+    formatToFile old fs = (sinkOut fs, false) ∧ formatToStdout fs = (sinkOut fs, false) ∧
+    (∀ pre f post t, fs = pre ++ f :: post → f.target = true → f.fmt = some t →
+      sinkOut fs = sinkOut pre ++ t ++ sinkOut post) ∧
+    (sinkOut fs).length = ((fs.filter (·.target)).map fun f => (f.fmt.getD []).length).sum := by
+  refine ⟨?_, ?_, ?_, sinkOut_length fs⟩
+  · unfold formatToFile writeTrunc; rw [hp, if_pos rfl]
+  · unfold formatToStdout formatToFile writeTrunc; rw [hp, if_pos rfl]
+  · intro pre f post t hfs ht hf
+    rw [hfs, sinkOut_append, sinkOut_cons, ht, if_pos rfl, hf, List.append_assoc]
+    rfl
+
+/-- `-o dir` when every targeted file parses: exactly the targeted files are written, each holding
+    its complete formatter output (`f.fmt = some t` ⇒ `(f.path, t)` is written). -/
+theorem dir_holds_every_output (fs : List WFile) (hp : fmtStepOk fs = true) :
+    (formatToDir fs).2 = false ∧
+    (∀ f ∈ fs, f.target = true → ∀ t, f.fmt = some t → (f.path, t) ∈ (formatToDir fs).1) ∧
+    (∀ pc ∈ (formatToDir fs).1, ∃ f ∈ fs, f.target = true ∧ pc = (f.path, f.fmt.getD [])) := by
+  unfold formatToDir
+  rw [hp, if_pos rfl]
+  refine ⟨rfl, ?_, ?_⟩
+  · intro f hf ht t hft
+    refine List.mem_map.mpr ⟨f, List.mem_filter.mpr ⟨hf, by simpa using ht⟩, ?_⟩
+    rw [hft]; rfl
+  · intro pc hpc
+    obtain ⟨f, hf, rfl⟩ := List.mem_map.mp hpc
+    have := List.mem_filter.mp hf
+    exact ⟨f, this.1, by simpa using this.2, rfl⟩
+
+/-- A targeted file that does not parse: the run fails BEFORE the sink is opened — the `-o` file
+    keeps what it held, nothing is written below `-o dir`, nothing reaches stdout. -/
+theorem sink_untouched_on_parse_error (old : Str) (fs : List WFile) (hp : fmtStepOk fs = false) :
+    formatToFile old fs = (old, true) ∧ formatToStdout fs = ([], true) ∧ formatToDir fs = ([], true) := by
+  unfold formatToStdout formatToFile formatToDir
+  rw [hp]
+  exact ⟨rfl, rfl, rfl⟩
+
+/-- The protocol of the correspondence harness carries summaries (length, polynomial hash) of
+    texts of up to a megabyte instead of the texts.  The summary is a monoid homomorphism
+    (`summ_append`), hence the sink model evaluated on the summaries of the files gives the
+    summary of what the sink model on the contents gives — for stdout / `-o file`, `-o dir` and
+    (every changed file can be opened) `-w`. -/
+theorem sink_summary_is_summary_of_sink (old : Str) (fs : List WFile) :
+    (∀ a b : List Nat, summ (a ++ b) = (summ a).append (summ b)) ∧
+    formatToFileS (summS old) (fs.map WFile.toS) = (summS (formatToFile old fs).1, (formatToFile old fs).2) ∧
+    formatToDirS (fs.map WFile.toS) = ((formatToDir fs).1.map fun pc => (pc.1, summS pc.2), (formatToDir fs).2) ∧
+    ((∀ f ∈ fs, f.changed = true → f.openable = true) →
+      formatWriteS (fs.map WFile.toS) = ((formatWrite fs).1.map fun pc => (pc.1, summS pc.2), (formatWrite fs).2.1)) := by
+  refine ⟨summ_append, ?_, ?_, ?_⟩
+  · unfold formatToFileS formatToFile writeTrunc
+    rw [sfmtStepOk_toS, sinkSumm_eq]
+    cases fmtStepOk fs <;> rfl
+  · unfold formatToDirS formatToDir
+    rw [sfmtStepOk_toS]
+    cases fmtStepOk fs
+    · rfl
+    · simp only [if_true, List.map_map, Prod.mk.injEq, and_true]
+      induction fs with
+      | nil => rfl
+      | cons f fs ih =>
+        simp only [List.map_cons, List.filter_cons]
+        have ht : f.toS.target = f.target := rfl
+        rw [ht]
+        cases f.target
+        · simpa using ih
+        · simp only [if_true, List.map_cons, Function.comp, toS_fmt]
+          rw [ih]; rfl
+  · intro ho
+    unfold formatWriteS
+    rw [sfmtStepOk_toS]
+    cases hp : fmtStepOk fs
+    · unfold formatWrite untouched
+      rw [hp]
+      simp only [Bool.false_eq_true, if_false, List.map_map, Prod.mk.injEq, and_true]
+      rfl
+    · rw [write_leaves_formatter_output fs hp ho]
+      simp only [if_true, List.map_map, Prod.mk.injEq, and_true]
+      apply List.map_congr_left
+      intro f _
+      simp only [Function.comp, WFile.want, WFile.toS]
+      rcases f with ⟨p, o, fm, t, op⟩
+      cases t <;> cases fm <;> rfl
+
+/-- Why every file must be read to its end: sent through ONE `Read` into a buffer of `n` units per
+    file (the recorded regression: n = 32768) the sink is the formatter's output exactly when no
+    targeted output is longer than the buffer — every test with small files passes, a longer file
+    is cut silently (here n = 8: `message A {}\n` arrives as `message `), and the file after it
+    follows the cut directly. -/
+theorem sink_single_read_counterexample :
+    (∀ n fs, sinkCut n fs = sinkOut fs ↔ ∀ f ∈ fs, f.target = true → (f.fmt.getD []).length ≤ n) ∧
+    (let a : WFile := { path := "a.proto".toList, orig := "message A{}".toList, fmt := some "message A {}\n".toList, target := true, openable := true }
+     let b : WFile := { path := "b.proto".toList, orig := "enum E{}".toList, fmt := some "enum E {}\n".toList, target := true, openable := true }
+     sinkCut 8 [a, b] = "message enum E {".toList ∧ sinkOut [a, b] = "message A {}\nenum E {}\n".toList ∧
+     sinkCut 13 [a, b] = sinkOut [a, b]) := by
+  refine ⟨sinkCut_eq_iff, by decide⟩
+
+/-- Why the `-o` file must be opened truncating: opened for appending, the result is the
+    formatter's output exactly when the location was empty. -/
+theorem sink_without_truncate_counterexample :
+    (∀ old new : Str, writeAppend old new = new ↔ old = []) ∧
+    (∀ old new : Str, writeTrunc old new = new) ∧
+    writeAppend "// stale\n".toList "message A {}\n".toList = "// stale\nmessage A {}\n".toList := by
+  refine ⟨?_, fun _ _ => rfl, by decide⟩
+  intro old new
+  unfold writeAppend
+  exact List.append_left_eq_self
+
+-- non-vacuity: the directory of `wEx` (c.proto is not targeted) sent to stdout / a file that held something
+example : fmtStepOk wEx = true := by decide
+example : formatToFile "// stale\n".toList wEx = ("message A {}\nmessage B {}\nmessage D {}\n".toList, false) := by decide
+example : (formatToDir wEx).1.map (·.1) = ["a.proto".toList, "b.proto".toList, "d.proto".toList] := by decide
+example : (summ [1, 2]).append (summ [3]) = summ [1, 2, 3] ∧ summ [1, 2, 3] = ⟨3, 66566⟩ := by decide
+example : formatToFileS Summ.empty (wEx.map WFile.toS) = (summS "message A {}\nmessage B {}\nmessage D {}\n".toList, false) := by
+  rw [show Summ.empty = summS [] from rfl, (sink_summary_is_summary_of_sink [] wEx).2.1]
+  decide
+
 
 -- non-vacuity: all 16 flag combinations exist, the 12 valid ones are clean on an all-ok run and
 -- give 100 exactly for the six with --exit-code when a difference exists
